@@ -1604,3 +1604,271 @@ Proof.
   - vm_compute. reflexivity.
   - eexists. split; [vm_compute; reflexivity|]. split; [vm_compute; discriminate | vm_compute; reflexivity].
 Qed.
+
+(* ------------------------------------------------------------------------------------ *)
+(* 10. Where the rewriter runs (Model_C01 section 10)                                     *)
+(* ------------------------------------------------------------------------------------ *)
+Definition kw_accepts catp (k : kw) (s : str) : Prop :=
+  (match k_pattern k with Some p => search catp p s | None => True end) /\ len_in (k_min k) (k_max k) s = true.
+Definition decl_accepts catp (d : decl) (s : str) : Prop :=
+  (match d_pattern d with Some p => search catp p s | None => True end) /\ len_in (d_min d) (d_max d) s = true.
+Definition no_rewrite_step (steps : list pstep) : bool := negb (existsb is_rewrite_step steps).
+
+(* rewrite_kw is update_pattern_in_schema of section 3 on the three keywords of the dict *)
+Lemma rewrite_kw_spec k k' p : rewrite_kw k = Some k' -> k_pattern k = Some p ->
+  exists p', k_pattern k' = Some p' /\ update_pattern_in_schema p (k_min k) (k_max k) = Some (p', k_min k', k_max k').
+Proof.
+  intros H Hp. unfold rewrite_kw in H. rewrite Hp in H. unfold update_pattern_in_schema.
+  destruct p as [|x p0]; [inversion H; subst; eauto|].
+  destruct (py_truthy (k_min k) || py_truthy (k_max k)); [|inversion H; subst; eauto].
+  destruct (update_quantifier (x :: p0) (k_min k) (k_max k)) as [|q|]; [inversion H; subst; eauto | | discriminate].
+  inversion H; subst. cbn. eauto.
+Qed.
+
+Lemma rewrite_kw_idle k : py_truthy (k_min k) || py_truthy (k_max k) = false -> rewrite_kw k = Some k.
+Proof.
+  intros H. unfold rewrite_kw. destruct (k_pattern k) as [[|x p]|]; try reflexivity. rewrite H. reflexivity.
+Qed.
+
+Lemma rewrite_kw_changed k k' : rewrite_kw k = Some k' ->
+  k' = k \/ (k_rewritten k' = true /\ py_truthy (k_min k) || py_truthy (k_max k) = true).
+Proof.
+  intros H. unfold rewrite_kw in H. destruct (k_pattern k) as [[|x p]|]; try (inversion H; auto; fail).
+  destruct (py_truthy (k_min k) || py_truthy (k_max k)) eqn:E; [|inversion H; auto].
+  destruct (update_quantifier (x :: p) (k_min k) (k_max k)); [inversion H; auto | | discriminate].
+  inversion H; subst. right. split; reflexivity.
+Qed.
+
+(* a step that is not the rewriter never touches pattern / rewritten, and only narrows the accepted strings *)
+Lemma apply_step_keeps l s g g' : is_rewrite_step s = false -> apply_step l s g = Some g' ->
+  g_pattern g' = g_pattern g /\ g_rewritten g' = g_rewritten g /\
+  k_max (g_kw g') = k_max (g_kw g) /\ (k_min (g_kw g') = k_min (g_kw g) \/ (k_min (g_kw g) = None /\ k_min (g_kw g') = Some 1)).
+Proof.
+  intros Hs H. destruct s; try discriminate; cbn [apply_step] in H.
+  - destruct g as [k|t m k]; destruct (is_header_loc l); inversion H; subst g'; cbn; auto.
+  - destruct g as [k|t m k]; destruct (is_path_loc l); inversion H; subst g'; cbn; auto.
+    + destruct (is_string (k_type k)); cbn; [|auto]. destruct (k_min k); cbn; repeat split; auto.
+    + destruct (is_string t); cbn; auto.
+  - destruct g as [k|t m k]; destruct (is_header_loc l); inversion H; subst g'; cbn; auto.
+    destruct (only_type_string k); cbn; auto.
+Qed.
+
+Lemma run_steps_keeps l steps : forall g g', no_rewrite_step steps = true -> run_steps l steps g = Some g' ->
+  g_pattern g' = g_pattern g /\ g_rewritten g' = g_rewritten g /\
+  k_max (g_kw g') = k_max (g_kw g) /\ (k_min (g_kw g') = k_min (g_kw g) \/ (k_min (g_kw g) = None /\ k_min (g_kw g') = Some 1)).
+Proof.
+  induction steps as [|s steps IH]; intros g g' Hn H.
+  - inversion H; subst. auto.
+  - cbn [run_steps] in H. destruct (apply_step l s g) as [g1|] eqn:E; [|discriminate].
+    unfold no_rewrite_step in Hn. cbn [existsb] in Hn. apply negb_true_iff in Hn. apply orb_false_iff in Hn. destruct Hn as [Hs Hr].
+    destruct (apply_step_keeps l s g g1 Hs E) as (P1 & R1 & X1 & M1).
+    assert (Hn' : no_rewrite_step steps = true) by (unfold no_rewrite_step; rewrite Hr; reflexivity).
+    destruct (IH g1 g' Hn' H) as (P2 & R2 & X2 & M2).
+    rewrite P2, R2, X2, P1, R1, X1. repeat split; auto.
+    destruct M2 as [M2|[M2a M2b]]; destruct M1 as [M1|[M1a M1b]].
+    + left. congruence.
+    + right. split; congruence.
+    + right. split; congruence.
+    + congruence.
+Qed.
+
+Lemma as_json_schema_inv l d g : as_json_schema l d = Some g ->
+  exists k', rewrite_kw (mkKw (d_type d) (d_pattern d) false (d_min d) (d_max d) (d_other d || is_nfalse (d_nullable d)) false) = Some k' /\
+             g_pattern g = k_pattern k' /\ g_rewritten g = k_rewritten k' /\ k_min (g_kw g) = k_min k' /\ k_max (g_kw g) = k_max k'.
+Proof.
+  unfold as_json_schema, convert. intros H.
+  destruct (rewrite_kw _) as [k'|] eqn:E; [|discriminate]. exists k'. split; [reflexivity|].
+  cbn [apply_step] in H. destruct (is_header_loc l); inversion H; subst; destruct (is_ntrue (d_nullable d)); cbn; auto.
+Qed.
+
+(* (1) the pattern of a parameter schema is rewritten only if the DECLARED schema carries a (truthy) minLength or maxLength:
+   all locations, all declared schemas, every list of later steps that does not call the rewriter *)
+Lemma rewritten_only_under_declared_length steps l d g :
+  no_rewrite_step steps = true -> gen_prop_with steps l d = Some g ->
+  (g_rewritten g = true \/ g_pattern g <> d_pattern d) -> declared_length d = true.
+Proof.
+  intros Hn H Hch. unfold gen_prop_with in H. destruct (as_json_schema l d) as [g0|] eqn:E; [|discriminate].
+  destruct (run_steps_keeps l steps g0 g Hn H) as (P & R & _ & _).
+  destruct (as_json_schema_inv l d g0 E) as (k' & Hk & P0 & R0 & _ & _).
+  destruct (rewrite_kw_changed _ _ Hk) as [->|[_ Ht]]; [|exact Ht].
+  rewrite P, R, P0, R0 in Hch. cbn in Hch. destruct Hch as [Hc|Hc]; [discriminate|contradiction].
+Qed.
+
+Lemma undeclared_length_pattern_is_declared steps l d :
+  no_rewrite_step steps = true -> declared_length d = false ->
+  (forall g, gen_prop_with steps l d = Some g -> g_pattern g = d_pattern d /\ g_rewritten g = false) /\
+  (exists g, gen_prop_with steps l d = Some g).
+Proof.
+  intros Hn Hd. split.
+  - intros g H. unfold gen_prop_with in H. destruct (as_json_schema l d) as [g0|] eqn:E; [|discriminate].
+    destruct (run_steps_keeps l steps g0 g Hn H) as (P & R & _ & _).
+    destruct (as_json_schema_inv l d g0 E) as (k' & Hk & P0 & R0 & _ & _).
+    rewrite rewrite_kw_idle in Hk by exact Hd. inversion Hk; subst k'. rewrite P, R, P0, R0. cbn. auto.
+  - unfold gen_prop_with, as_json_schema, convert. rewrite rewrite_kw_idle by exact Hd.
+    assert (Hrun : forall st g, no_rewrite_step st = true -> exists g', run_steps l st g = Some g').
+    { induction st as [|s st IH]; intros g Hs; [eexists; reflexivity|].
+      unfold no_rewrite_step in Hs. cbn [existsb] in Hs. apply negb_true_iff in Hs. apply orb_false_iff in Hs. destruct Hs as [Hs Hr].
+      cbn [run_steps]. assert (exists g1, apply_step l s g = Some g1) as [g1 ->].
+      { destruct s; try discriminate; cbn [apply_step]; [destruct (is_header_loc l)|destruct (is_path_loc l)|destruct (is_header_loc l)]; eauto. }
+      apply IH. unfold no_rewrite_step. rewrite Hr. reflexivity. }
+    cbn [apply_step]. destruct (is_header_loc l); apply Hrun; exact Hn.
+Qed.
+
+(* (2) path parameters that declare no length keyword: the code as it is never raises, generates from the DECLARED pattern,
+   and a plain string parameter gets the implied minLength 1 next to it *)
+Lemma path_pattern_is_declared d : d_min d = None -> d_max d = None ->
+  exists g, gen_prop LPath d = Some g /\ g_pattern g = d_pattern d /\ g_rewritten g = false /\ k_max (g_kw g) = None /\
+            k_min (g_kw g) = (if is_string (d_type d) && negb (is_ntrue (d_nullable d)) then Some 1 else None).
+Proof.
+  intros Hmn Hmx. unfold gen_prop, gen_prop_with, as_json_schema, convert.
+  rewrite rewrite_kw_idle by (cbn; rewrite Hmn, Hmx; reflexivity).
+  destruct (is_ntrue (d_nullable d)) eqn:En; cbn [apply_step is_header_loc dict_steps run_steps is_path_loc].
+  - eexists. split; [reflexivity|]. cbn. rewrite andb_false_r. auto.
+  - cbn [k_type]. destruct (is_string (d_type d)) eqn:Es; cbn [k_type apply_step is_header_loc].
+    + eexists. split; [reflexivity|]. cbn. rewrite Hmn. cbn. auto.
+    + eexists. split; [reflexivity|]. cbn. auto.
+Qed.
+
+(* (3) the generated values: a string accepted by the dict the implementation generates from is accepted by the DECLARED
+   keywords - unconditionally when no length is declared, inside the regions of the rewriter otherwise *)
+Lemma generation_value_conforms catp steps l d g s :
+  no_rewrite_step steps = true -> gen_prop_with steps l d = Some g -> pipeline_region d s = true ->
+  kw_accepts catp (g_kw g) s -> decl_accepts catp d s.
+Proof.
+  intros Hn H Hreg [Hp Hl]. unfold gen_prop_with in H. destruct (as_json_schema l d) as [g0|] eqn:E; [|discriminate].
+  destruct (run_steps_keeps l steps g0 g Hn H) as (P & _ & X & Mi).
+  destruct (as_json_schema_inv l d g0 E) as (k' & Hk & P0 & _ & Mi0 & X0).
+  unfold g_pattern in P, P0. rewrite P, P0 in Hp. rewrite X, X0 in Hl.
+  assert (Hl' : len_in (k_min k') (k_max k') s = true).
+  { destruct Mi as [Mi|[Mia Mib]]; [rewrite Mi, Mi0 in Hl; exact Hl|].
+    rewrite Mib in Hl. rewrite Mi0 in Mia. rewrite Mia. unfold len_in in *. apply andb_true_iff in Hl. destruct Hl as [_ Hl]. exact Hl. }
+  clear Hl Mi Mi0 X X0 P P0 H E g g0.
+  unfold decl_accepts. destruct (d_pattern d) as [p|] eqn:Edp.
+  - destruct (rewrite_kw_spec _ _ p Hk eq_refl) as (p' & Hp' & Hup). cbn [k_min k_max] in Hup. rewrite Hp' in Hp.
+    unfold pipeline_region in Hreg. rewrite Edp in Hreg. destruct (declared_length d) eqn:Ed; cbn [negb orb] in Hreg.
+    + repeat (apply andb_true_iff in Hreg; destruct Hreg as [Hreg ?]).
+      eapply schema_sound; eauto.
+    + rewrite rewrite_kw_idle in Hk by exact Ed. inversion Hk; subst k'. cbn in *. inversion Hp'; subst. auto.
+  - unfold rewrite_kw in Hk. cbn in Hk. inversion Hk; subst k'. cbn in *. auto.
+Qed.
+
+(* ---- the whole location ---- *)
+Lemma assoc_get_map_steps l steps : forall props props' name g', map_steps l steps props = Some props' ->
+  assoc_get name props' = Some g' -> exists g, assoc_get name props = Some g /\ run_steps l steps g = Some g'.
+Proof.
+  induction props as [|[n g] props IH]; intros props' name g' H Hg.
+  - inversion H; subst. discriminate.
+  - cbn [map_steps] in H. destruct (run_steps l steps g) as [g1|] eqn:E1; [|discriminate].
+    destruct (map_steps l steps props) as [r|] eqn:E2; [|discriminate]. inversion H; subst.
+    cbn [assoc_get] in *. destruct (str_eqb name n); [inversion Hg; subst; eauto|]. eapply IH; eauto.
+Qed.
+
+Lemma map_steps_keys l steps : forall props props', map_steps l steps props = Some props' -> map fst props' = map fst props.
+Proof.
+  induction props as [|[n g] props IH]; intros props' H; [inversion H; reflexivity|].
+  cbn [map_steps] in H. destruct (run_steps l steps g); [|discriminate]. destruct (map_steps l steps props) eqn:E; [|discriminate].
+  inversion H; subst. cbn. f_equal. apply IH; reflexivity.
+Qed.
+
+Lemma params_to_schema_get l : forall ps props req props' req' name g,
+  params_to_schema l ps props req = Some (props', req') -> assoc_get name props' = Some g ->
+  assoc_get name props = Some g \/ exists p, In p ps /\ p_name p = name /\ as_json_schema l (p_decl p) = Some g.
+Proof.
+  induction ps as [|p ps IH]; intros props req props' req' name g H Hg.
+  - inversion H; subst. auto.
+  - cbn [params_to_schema] in H. destruct (as_json_schema l (p_decl p)) as [g0|] eqn:E; [|discriminate].
+    destruct (IH _ _ _ _ _ _ H Hg) as [Hin|(q & Hq & Hn & Hs)].
+    + destruct (str_eqb name (p_name p)) eqn:En.
+      * apply str_eqb_spec in En. subst name. rewrite assoc_get_set_same in Hin. inversion Hin; subst.
+        right. exists p. split; [left; reflexivity|auto].
+      * rewrite assoc_get_set_other in Hin by exact En. auto.
+    + right. exists q. split; [right; exact Hq|auto].
+Qed.
+
+Lemma assoc_set_has {A} k (v : A) l k' : has_key k' (map fst (assoc_set k v l)) = has_key k' (map fst l) || str_eqb k' k.
+Proof.
+  induction l as [|[k0 v0] l IH]; cbn [assoc_set map fst has_key existsb].
+  - rewrite orb_false_r. reflexivity.
+  - destruct (str_eqb k k0) eqn:E; cbn [map fst existsb].
+    + apply str_eqb_spec in E. subst k0. destruct (str_eqb k' k); cbn; [reflexivity|]. rewrite orb_false_r. reflexivity.
+    + unfold has_key in IH. rewrite IH. rewrite orb_assoc. reflexivity.
+Qed.
+
+Lemma params_to_schema_keys l : forall ps props req props' req',
+  params_to_schema l ps props req = Some (props', req') ->
+  forall name, has_key name (map fst props') = has_key name (map fst props) || existsb (fun p => str_eqb name (p_name p)) ps.
+Proof.
+  induction ps as [|p ps IH]; intros props req props' req' H name.
+  - inversion H; subst. cbn. rewrite orb_false_r. reflexivity.
+  - cbn [params_to_schema] in H. destruct (as_json_schema l (p_decl p)) as [g0|]; [|discriminate].
+    rewrite (IH _ _ _ _ H name). rewrite assoc_set_has. cbn [existsb]. rewrite orb_assoc. reflexivity.
+Qed.
+
+(* every property of the object handed to from_schema is the generation schema of one of the parameters *)
+Lemma location_schema_props l ps props req name g :
+  location_schema l ps = Some (props, req) -> assoc_get name props = Some g ->
+  exists p, In p ps /\ p_name p = name /\ gen_prop l (p_decl p) = Some g.
+Proof.
+  unfold location_schema, location_schema_with. intros H Hg.
+  destruct (params_to_schema l ps [] []) as [[props0 req0]|] eqn:E; [|discriminate].
+  destruct (map_steps l dict_steps props0) as [props1|] eqn:E1; [|discriminate]. inversion H; subst.
+  destruct (assoc_get_map_steps _ _ _ _ _ _ E1 Hg) as (g0 & Hg0 & Hrun).
+  destruct (params_to_schema_get _ _ _ _ _ _ _ _ E Hg0) as [Hnil|(p & Hin & Hn & Hs)]; [discriminate|].
+  exists p. repeat split; auto. unfold gen_prop, gen_prop_with. rewrite Hs. exact Hrun.
+Qed.
+
+(* all path parameters are required: required is the list of property names, and every parameter has a property *)
+Lemma path_all_required ps props req :
+  location_schema LPath ps = Some (props, req) ->
+  req = map fst props /\ forall p, In p ps -> has_key (p_name p) req = true.
+Proof.
+  unfold location_schema, location_schema_with. intros H.
+  destruct (params_to_schema LPath ps [] []) as [[props0 req0]|] eqn:E; [|discriminate].
+  destruct (map_steps LPath dict_steps props0) as [props1|] eqn:E1; [|discriminate]. inversion H; subst. cbn [is_path_loc].
+  rewrite (map_steps_keys _ _ _ _ E1). split; [reflexivity|].
+  intros p Hin. rewrite (params_to_schema_keys _ _ _ _ _ _ E). cbn [map has_key existsb orb].
+  apply existsb_exists. exists p. split; [exact Hin|apply str_eqb_refl].
+Qed.
+
+(* the end-to-end statement for a whole location, all parameter lists *)
+Lemma location_values_conform catp l ps props req name g s :
+  location_schema l ps = Some (props, req) -> assoc_get name props = Some g ->
+  exists p, In p ps /\ p_name p = name /\
+    ((g_rewritten g = true \/ g_pattern g <> d_pattern (p_decl p)) -> declared_length (p_decl p) = true) /\
+    (pipeline_region (p_decl p) s = true -> kw_accepts catp (g_kw g) s -> decl_accepts catp (p_decl p) s).
+Proof.
+  intros H Hg. destruct (location_schema_props _ _ _ _ _ _ H Hg) as (p & Hin & Hn & Hgp).
+  exists p. split; [exact Hin|]. split; [exact Hn|]. split.
+  - apply (rewritten_only_under_declared_length dict_steps l); [reflexivity|exact Hgp].
+  - apply (generation_value_conforms catp dict_steps l); [reflexivity|exact Hgp].
+Qed.
+
+(* ---- the seeded order is refuted: the rewriter called after the path default ---- *)
+Lemma seeded_order_refuted catp :
+  exists g, gen_prop_with seeded_dict_steps LPath d_single = Some g /\
+            declared_length d_single = false /\ pipeline_region d_single s_abc = true /\
+            g_rewritten g = true /\ g_pattern g <> d_pattern d_single /\
+            kw_accepts catp (g_kw g) s_abc /\ ~ decl_accepts catp d_single s_abc.
+Proof.
+  eexists. split; [vm_compute; reflexivity|]. split; [reflexivity|]. split; [reflexivity|]. split; [reflexivity|].
+  split; [cbn; intros H; inversion H|].
+  split; [split; [apply search_b_sound; vm_compute; reflexivity | reflexivity]|].
+  intros [Hs _]. destruct (refuted_single_char catp) as (p' & _ & _ & _ & Hno). apply Hno. split; [exact Hs|reflexivity].
+Qed.
+
+(* non-vacuity / sensitivity: the same parameter under the code as it is; a parameter WITH declared lengths is rewritten
+   in every location (so the first theorem is not about a function that never rewrites) *)
+Definition d_ok : decl := mkDecl (Some TyString) NFalse false (Some w_ok) (Some 2) (Some 5).
+Lemma pipeline_examples :
+  (exists g, gen_prop LPath d_single = Some g /\ g_pattern g = Some w_single /\ g_rewritten g = false /\ k_min (g_kw g) = Some 1) /\
+  (forall l, exists g, gen_prop l d_ok = Some g /\ g_rewritten g = true /\ g_pattern g <> d_pattern d_ok /\
+                       k_min (g_kw g) = (if is_path_loc l then Some 1 else None) /\ pipeline_region d_ok s_abc = true) /\
+  (exists props, location_schema LHeader [mkParam [120%N] false (mkDecl (Some TyString) NAbsent false None None None);
+                                          mkParam [121%N] true d_single; mkParam [120%N] true (mkDecl None NTrue false None None None)]
+                 = Some (props, [121%N] :: [[120%N]]) /\ map fst props = [[120%N]; [121%N]]).
+Proof.
+  split; [eexists; split; [vm_compute; reflexivity|repeat split; reflexivity]|].
+  split.
+  - intros l. destruct l; (eexists; split; [vm_compute; reflexivity|]; repeat split; try reflexivity; cbn; intros H; inversion H).
+  - eexists. split; vm_compute; reflexivity.
+Qed.
